@@ -300,15 +300,41 @@ func wireMulticast() bool {
 		// several check processes on one host would share groups. Start this process
 		// somewhere of its own in the 2^24 groups / 23 k ports.
 		h := uint32(os.Getpid())*2654435761 + uint32(time.Now().UnixNano())
-		for i := uint32(0); i < h%(1<<22); i++ {
+		for i := uint32(0); i < h%(1<<24); i++ {
 			utils.Multicast.NextIP()
 		}
-		for i := uint32(0); i < (h>>8)%20000; i++ {
+		for i := uint32(0); i < (h>>8)%15000; i++ {
 			utils.Multicast.NextPort()
 		}
 	})
 	return wireMcastErr == nil
 }
+
+// wireSafeMulticastPorts is called before a RECORD creates a stream (ipchub then
+// takes the next four ports of its pool 16666..39999 for the stream's multicast
+// proxy): it moves the pool on until those ports lie below the host's ephemeral
+// range (32768+), where the OS-chosen ports of every unicast UDP socket on this
+// host come from.
+func wireSafeMulticastPorts() {
+	if !wireMulticast() {
+		return
+	}
+	for utils.Multicast.NextPort() >= 31990 {
+	}
+}
+
+var wireJoinCount uint64
+
+// joinMulticast is rtspc.JoinMulticast (with a development switch that makes every
+// third join fail the way a port held by another process does).
+func joinMulticast(group string, port int) (*net.UDPConn, error) {
+	if os.Getenv("VERIF_WIRE_FAKE_PORT_TAKEN") != "" && atomic.AddUint64(&wireJoinCount, 1)%3 == 0 {
+		return nil, &rtspc.MulticastJoinError{Group: group, Port: port, Err: errors.New("bind: address already in use (simulated)")}
+	}
+	return rtspc.JoinMulticast(group, port)
+}
+
+const wireClassPortTaken = "wire: multicast port taken by another process on this host (member skipped)"
 
 func wireKindEnabled(k string) bool {
 	if k == "mcast" && !wireMulticast() {
@@ -501,6 +527,7 @@ type wclient struct {
 	problem  string  // framing problem seen while reading (judged later)
 	attached bool
 	left     bool
+	skipped  bool // the host could not give it its multicast socket: not part of the case
 	tornDown bool // a TEARDOWN was sent: one response is expected
 }
 
@@ -622,11 +649,11 @@ func (c *wclient) attachRTSP(s *srv.Server, path string) (err error) {
 			if err != nil {
 				return err
 			}
-			if c.udp[2*tr], err = rtspc.JoinMulticast(group, rtp); err != nil {
+			if c.udp[2*tr], err = joinMulticast(group, rtp); err != nil {
 				return err
 			}
 			if !c.pl.NoRTCP && rtcp > 0 {
-				if c.udp[2*tr+1], err = rtspc.JoinMulticast(group, rtcp); err != nil {
+				if c.udp[2*tr+1], err = joinMulticast(group, rtcp); err != nil {
 					return err
 				}
 			}
@@ -986,6 +1013,8 @@ type wresult struct {
 	rtp   []int // RTSP family: indices into the log, arrival order, up to the sentinel
 	chans []int // wire channel of each
 	units []int // FLV family: indices into log.units, arrival order, up to the sentinel
+
+	skipped bool // the client never became part of the case (multicast socket not available)
 }
 
 var wireServer *srv.Server
@@ -1019,6 +1048,7 @@ func runWire(t evid.TB, pl *wplan, audience bool) *wresult {
 	if pl.Publisher == "direct" {
 		pub.direct = srv.PublishStream(path, sdp)
 	} else {
+		wireSafeMulticastPorts()
 		rc, err := rtspc.Dial(s.Addr(), wireBound)
 		if err != nil {
 			t.Fatalf("machinery: publisher dial: %v", err)
@@ -1068,6 +1098,15 @@ func runWire(t evid.TB, pl *wplan, audience bool) *wresult {
 			if c.pl.AttachAt == i && !c.attached {
 				before := st.ConsumerCount()
 				if err := c.attach(s, path); err != nil {
+					var je *rtspc.MulticastJoinError
+					if errors.As(err, &je) {
+						// the server names group and port; whether this host can give the member a
+						// socket there is neither ipchub's nor the property's business
+						evid.Class(wireClassPortTaken)
+						c.leave(s, path, true)
+						c.skipped = true
+						continue
+					}
 					t.Fatalf("machinery: client %d (%s) could not attach before packet %d: %v", c.id, c.pl.Kind, i, err)
 				}
 				c.attached = true
@@ -1204,7 +1243,7 @@ func runWire(t evid.TB, pl *wplan, audience bool) *wresult {
 func judgeWire(t evid.TB, pl *wplan, c *wclient, detail func(map[string]any) map[string]any) *wresult {
 	l := pl.log
 	who := fmt.Sprintf("client %d (%s)", c.id, c.pl.Kind)
-	res := &wresult{}
+	res := &wresult{skipped: c.skipped}
 	if !c.attached {
 		return res
 	}
@@ -1532,8 +1571,12 @@ func TestWireFanout(t *testing.T) {
 		pl := genWirePlan(t)
 		evid.Eval(1)
 		with := runWire(t, pl, true)
-		if len(pl.Clients) > 1 {
+		if len(pl.Clients) > 1 && !with.skipped {
 			alone := runWire(t, pl, false)
+			if alone.skipped {
+				wireClassify(pl)
+				return
+			}
 			tg := pl.Clients[0]
 			a, b := with.rtp, alone.rtp
 			if tg.Kind == "httpflv" || tg.Kind == "wsflv" {
@@ -1593,6 +1636,7 @@ func TestWirePlayAnswerThenPublish(t *testing.T) {
 			path := fmt.Sprintf("/c01w/w%d", atomic.AddUint64(&wireCases, 1))
 			pub := &wpublisher{}
 			if kind == "mcast" { // only a RECORD-published stream has a multicast proxy
+				wireSafeMulticastPorts()
 				rc, err := rtspc.Dial(s.Addr(), wireBound)
 				if err != nil {
 					t.Fatalf("machinery: publisher dial: %v", err)
@@ -1606,7 +1650,13 @@ func TestWirePlayAnswerThenPublish(t *testing.T) {
 			}
 			c := &wclient{pl: wclientPlan{Kind: kind, DetachAt: -1, Chans: [4]int{0, 1, 2, 3}}}
 			if err := c.attach(s, path); err != nil {
+				c.leave(s, path, false)
 				pub.close()
+				var je *rtspc.MulticastJoinError
+				if errors.As(err, &je) {
+					evid.Class(wireClassPortTaken)
+					continue
+				}
 				t.Fatalf("machinery: %s attach: %v", kind, err)
 			}
 			pub.publish(first)
